@@ -25,7 +25,7 @@ ASSUMPTIONS = ["internal-state differences without observable effect are logged 
 
 
 def gen(rng, i, tier):
-    return {"seed": rng.randrange(1 << 40), "n_ops": rng.choice([15, 30, 45])}
+    return {"seed": rng.randrange(1 << 40), "n_ops": rng.choice([15, 30, 45]), "observe_every": [1, 1, 3, 2][i % 4]}
 
 
 def rejection_ops(rng, L):
@@ -145,6 +145,8 @@ def run(ctx, case):
     queue = []
     history = []
     o2 = prev = None
+    every = case.get("observe_every", 1)
+    twin_dirty, burst = False, []
     with H.tmpdir() as d:
         prev = hist.observe(subject, d)
         for k in range(case["n_ops"]):
@@ -182,10 +184,20 @@ def run(ctx, case):
                 classes.add(cls)
                 ctx.count("rejected_class", cls)
                 ctx.count("rejected_exception", type(e1).__name__)
+            twin_dirty = twin_dirty or s1 == "ok"
+            burst.append(k)
+            if every > 1 and (k + 1) % every != 0 and k != case["n_ops"] - 1:
+                # burst mode: no report is requested between calls (a report may itself repair what a rejected call
+                # left half-done); the comparison with the twin follows at the end of the burst
+                prev = None
+                continue
             o1 = hist.observe(subject, d)
-            if s1 == "ok" or o2 is None:
-                o2 = hist.observe(twin, d)  # the twin only changes when it received the call
-            if s1 != "ok" and prev is not None:
+            if twin_dirty or o2 is None:
+                o2 = hist.observe(twin, d)  # the twin only changes when it received a call
+                twin_dirty = False
+            single = len(burst) == 1
+            burst = []
+            if s1 != "ok" and prev is not None and single:
                 # a rejected call: the SAME object before and after, compared exactly (order included)
                 diff = hist.obs_diff(prev, o1)
             else:
